@@ -309,11 +309,16 @@ def constrain_new(eng, st, v, ty):
         nm = simple_type_name(t) if t and t[0] not in '([{&*' else None
         if nm and re.match(r'^[A-Z]\w*$', nm or ''):
             try:
-                vs = eng.prog.cat.variants(nm, strip_generics(t))
+                dv = eng.prog.cat.discr_values(nm, strip_generics(t))
             except MirError:
-                vs = None
-            if vs:
-                n = len(vs)
+                dv = None
+            if dv:
+                vals = sorted(set(dv.values()))
+                if vals == list(range(len(vals))):
+                    n = len(vals)
+                else:
+                    eng.assume(st, z3.Or([v.discriminant() == z3.BitVecVal(x, 64) for x in vals]))
+                    return
     if n:
         eng.assume(st, z3.ULT(v.discriminant(), z3.BitVecVal(n, 64)))
 
@@ -1054,4 +1059,133 @@ STD_MODELS[:0] = [
     (R(r'RangeInclusive::<(u8|u16|u32|u64|usize)>::new$'), m_range_new),
     (R(r'^<(std::ops::|core::ops::)?RangeInclusive<\w+> as Iterator>::rev$'), m_range_rev),
     (R(r'^<(Rev<)?(std::ops::|core::ops::)?RangeInclusive<\w+>>? as Iterator>::next$'), m_range_next),
+]
+
+
+# ---- iterator adaptors (eager over IterV) ---------------------------------------------------------------------
+
+def _iter_value(eng, st, a):
+    """iterator passed by value (adaptors take self): IterV, or an opaque iterator materialised as bounded sequence"""
+    if isinstance(a, Ref):
+        out = []
+        for s2, r in iter_of(eng, st, a):
+            out.append((s2, eng.read(s2, r.loc, r.path)))
+        return out
+    if isinstance(a, IterV):
+        return [(st, a)]
+    if isinstance(a, Opaque):
+        return [(s2, IterV(seq.items)) for s2, seq in materialise_seq(eng, st, a)]
+    if isinstance(a, (SeqV, MapV)):
+        return [(st, IterV(materialise_seq(eng, st, a)[0][1].items))]
+    raise MirError(f'not an iterator value: {vrepr(a)}')
+
+
+def m_iter_filter(eng, st, call):
+    """filter / filter_map / map / take_while are applied eagerly, element by element, forking with the closure"""
+    name = method_name(call.fn)
+    clo = call.args[1]
+    out = []
+    for s0, it in _iter_value(eng, st, call.args[0]):
+        items = it.items[it.pos:]
+        states = [(s0, [])]
+        for x in items:
+            nxt = []
+            for s, acc in states:
+                if name == 'filter':
+                    for s2, r in call_closure(eng, s, clo, [Ref(s.temp(x), ())]):
+                        for s3, b in bool_cases(eng, s2, r):
+                            nxt.append((s3, acc + [x] if b else acc))
+                elif name == 'map':
+                    for s2, r in call_closure(eng, s, clo, [x]):
+                        nxt.append((s2, acc + [r]))
+                elif name == 'filter_map':
+                    for s2, r in call_closure(eng, s, clo, [x]):
+                        for s3, vn, p in split_enum(eng, s2, r, 'Option'):
+                            nxt.append((s3, acc + [p] if vn == 'Some' else acc))
+            states = nxt
+        for s, acc in states:
+            out.append((s, IterV(acc)))
+    return out
+
+
+def m_iter_simple(eng, st, call):
+    name = method_name(call.fn)
+    out = []
+    for s0, it in _iter_value(eng, st, call.args[0]):
+        items = it.items[it.pos:]
+        if name == 'enumerate':
+            out.append((s0, IterV([Agg('tuple', None, None, [z3.BitVecVal(i, 64), x]) for i, x in enumerate(items)])))
+        elif name == 'rev':
+            out.append((s0, IterV(list(reversed(items)))))
+        elif name in ('cloned', 'copied'):
+            out.append((s0, IterV([copy_val(deref_all(eng, s0, x)) for x in items])))
+        elif name == 'count':
+            out.append((s0, z3.BitVecVal(len(items), 64)))
+        elif name in ('skip', 'take'):
+            n = eng.concrete_int(s0, call.args[1])
+            out.append((s0, IterV(items[n:] if name == 'skip' else items[:n])))
+        elif name == 'collect':
+            out.append((s0, collect_into(eng, s0, items, call.dest_ty)))
+        elif name == 'last':
+            out.append((s0, SOME(items[-1]) if items else NONE()))
+        else:
+            return None
+    return out
+
+
+def collect_into(eng, st, items, ty):
+    t = simple_type_name(ty or '?')
+    if t in ('Vec', 'VecDeque'):
+        return SeqV(list(items), ty)
+    if t in ('HashSet', 'BTreeSet'):
+        m = MapV([], ty, True)
+        for x in items:
+            map_insert(eng, st, m, x, UNIT())
+        return m
+    if t in ('HashMap', 'BTreeMap'):
+        m = MapV([], ty)
+        for x in items:
+            if isinstance(x, Agg) and len(x.fields) == 2:
+                map_insert(eng, st, m, x.fields[0], x.fields[1])
+            else:
+                raise MirError('collect into map of non-pairs')
+        return m
+    raise MirError('collect into ' + str(ty))
+
+
+def key_eq_decided(eng, st, a, b):
+    """decide key equality (concrete tokens / identical symbolic terms); undecidable -> error (obligation must use key pools)"""
+    e = z3.simplify(val_eq(eng, a, b))
+    if z3.is_true(e):
+        return True
+    if z3.is_false(e):
+        return False
+    if eng.prove(st.pc, e)[0]:
+        return True
+    if eng.prove(st.pc, z3.Not(e))[0]:
+        return False
+    raise MirError(f'undecided key equality {vrepr(a)} == {vrepr(b)} (container keys must come from a concrete pool)')
+
+
+def map_find(eng, st, m, k):
+    for i, (kk, v) in enumerate(m.entries):
+        if key_eq_decided(eng, st, kk, k):
+            return i
+    return None
+
+
+def map_insert(eng, st, m, k, v):
+    i = map_find(eng, st, m, k)
+    if i is None:
+        m.entries.append([k, v])
+        return None
+    old = m.entries[i][1]
+    m.entries[i][1] = v
+    return old
+
+
+STD_MODELS += [
+    (R(r' as (std::iter::)?Iterator>::(filter|map|filter_map)::<'), m_iter_filter),
+    (R(r' as (std::iter::)?Iterator>::(enumerate|rev|cloned|copied|count|skip|take|last)$'), m_iter_simple),
+    (R(r' as (std::iter::)?Iterator>::collect::<'), m_iter_simple),
 ]
